@@ -145,6 +145,17 @@ func (r *r) block(b *cm.Block, parentTight bool) {
 			if c.Kind() == cm.InfoStringKind {
 				continue
 			}
+			if c.Kind() == cm.SoftLineBreakKind {
+				// the content of a code block is verbatim: the line ending of its
+				// last line (a node the parser adds when the input ends without
+				// one) is a newline whatever SoftBreakBehavior says
+				if t := c.Text(r.src); t != "" {
+					r.text(t)
+				} else {
+					r.text("\n")
+				}
+				continue
+			}
 			r.inline(c)
 		}
 		r.end("code")
